@@ -22,4 +22,4 @@ if note: m['strengthened']=note
 json.dump(m,open(d+'meta.json','w'),indent=1)
 print(name,'caught=',m['check_caught'],'|',(m['check_reported'] or '')[:200])
 PY
-find /verif/replays -type f -newer /tmp/.seedstart.$$ -delete; rm -f /tmp/.seedstart.$$
+find /verif/replays -type f -name '*-seed1-*' -newer /tmp/.seedstart.$$ -delete; rm -f /tmp/.seedstart.$$
